@@ -1,10 +1,12 @@
 package props
 
 import (
+	"bytes"
 	"fmt"
 	"strconv"
 	"strings"
 
+	"pault.ag/go/debian/control"
 	"pault.ag/go/debian/dependency"
 	"pault.ag/go/debian/version"
 
@@ -179,6 +181,45 @@ var depImpl = map[string]core.Adapter{
 		y, err := dependency.ParseArch(x.String())
 		if err != nil || *y != *x {
 			return fmt.Sprintf("FAIL %v renders %q which parses to %v", *x, x.String(), y)
+		}
+		// the control-file path (what control.Marshal writes for an Arch field) round-trips too
+		mc, err := x.MarshalControl()
+		z := dependency.Arch{ABI: "stale", OS: "stale", CPU: "stale"}
+		if err != nil || z.UnmarshalControl(mc) != nil || z != *x {
+			return fmt.Sprintf("FAIL %v: MarshalControl gives %q (%v), which unmarshals to %v", *x, mc, err, z)
+		}
+		type holder struct {
+			Architecture  dependency.Arch
+			Architectures []dependency.Arch `control:"List" delim:" "`
+		}
+		h := holder{Architecture: *x, Architectures: []dependency.Arch{*x, *x}}
+		var buf bytes.Buffer
+		var back holder
+		plainToken := mc != ""
+		for _, c := range []byte(mc) {
+			if c <= ' ' || c >= 0x7f {
+				plainToken = false // white space inside a name does not survive a control file: not an architecture name
+			}
+		}
+		if !plainToken {
+			back = h
+		} else if err := control.Marshal(&buf, &h); err != nil {
+			return "FAIL control.Marshal: " + err.Error()
+		} else if err := control.Unmarshal(&back, strings.NewReader(buf.String())); err != nil || back.Architecture != *x || len(back.Architectures) != 2 || back.Architectures[1] != *x {
+			return fmt.Sprintf("FAIL %v written by control.Marshal as %q reads back as %v (%v)", *x, buf.String(), back, err)
+		}
+		// a result is the caller's own value: changing it changes no other result, no later
+		// parse and none of the package's exported values
+		anyBefore, allBefore := dependency.Any, dependency.All
+		other, _ := dependency.ParseArch(core.MustUnHex(a[0]))
+		x.ABI, x.OS, x.CPU = "changed", "changed", "changed"
+		again, _ := dependency.ParseArch(core.MustUnHex(a[0]))
+		if *other != *y || *again != *y {
+			return fmt.Sprintf("FAIL after changing one ParseArch(%q) result in place, another result reads %v and a new parse %v", core.MustUnHex(a[0]), *other, *again)
+		}
+		if dependency.Any != anyBefore || dependency.All != allBefore {
+			dependency.Any, dependency.All = anyBefore, allBefore
+			return fmt.Sprintf("FAIL changing a ParseArch(%q) result in place changed dependency.Any / dependency.All", core.MustUnHex(a[0]))
 		}
 		return "ok"
 	},
@@ -613,6 +654,32 @@ func streamArch(g *core.G) {
 		g.Emit("archrt", core.Hex(n))
 		g.Emit("law-archrt", core.Hex(n))
 	}
+	// the keywords are lower case: "GNU", "Linux", "Any", "ALL" are ordinary names
+	caseOf := func(w string) string {
+		switch r.Intn(4) {
+		case 0:
+			return strings.ToUpper(w)
+		case 1:
+			return strings.ToUpper(w[:1]) + w[1:]
+		case 2:
+			return w[:len(w)-1] + strings.ToUpper(w[len(w)-1:])
+		}
+		return w
+	}
+	for i := g.N(600, 20000); i > 0; i-- {
+		var ps []string
+		for k := r.Range(1, 3); k > 0; k-- {
+			w := r.Pick(parts[:7])
+			if r.Bool() {
+				w = caseOf(w)
+			}
+			ps = append(ps, w)
+		}
+		n := strings.Join(ps, "-")
+		g.Emit("archparse", core.Hex(n))
+		g.Emit("archrt", core.Hex(n))
+		g.Emit("law-archrt", core.Hex(n))
+	}
 	for i := g.N(2000, 50000); i > 0; i-- {
 		n := r.Str("anyl-gux6\x80 ", r.Intn(10))
 		g.Emit("archrt", core.Hex(n))
@@ -655,6 +722,10 @@ func streamArchsem(g *core.G) {
 	for i := g.N(1500, 60000); i > 0; i-- {
 		s := renderDep(r, genDepAST(r), r.Intn(4))
 		g.Emit("possis", core.Hex(s), core.Hex(r.Pick(archNames)))
+	}
+	// results of ParseArch are the caller's own values (law-archrt changes one in place)
+	for _, n := range archNames {
+		g.Emit("law-archrt", core.Hex(n))
 	}
 	// the same list / the same parsed field asked repeatedly, through one Arch variable
 	for i := g.N(800, 30000); i > 0; i-- {
